@@ -790,6 +790,17 @@ func (e *escaper) escapeTree(c context, node parse.Node, name string, line int) 
 	return out, dname
 }
 
+// endsWithPrefixOf reports whether b ends, ignoring case, with the first k bytes of full for
+// some k >= min.
+func endsWithPrefixOf(b []byte, full string, min int) bool {
+	for k := len(full); k >= min; k-- {
+		if k <= len(b) && strings.EqualFold(string(b[len(b)-k:]), full[:k]) {
+			return true
+		}
+	}
+	return false
+}
+
 // memoizedContext is the output context of a called template in the form in which it is kept
 // for later calls. The analysis of a copy is shared by all calls whose contexts have the same
 // mangled name, but inside an attribute value these contexts differ in the static text seen so
@@ -912,6 +923,27 @@ func (e *escaper) escapeText(c context, n *parse.TextNode) context {
 			return context{
 				state: stateError,
 				err:   errorf(ErrBadHTML, n, 0, `"</noscript" inside an attribute value, comment or special element of a noscript element`),
+			}
+		}
+		if c.inNoscript && c.state != stateText && i1 == len(s) && endsWithPrefixOf(s[i:i1], "</noscript", 1) {
+			// e.g. `<noscript><a title="</noscr{{.X}}">`: what follows may complete the end tag.
+			return context{
+				state: stateError,
+				err:   errorf(ErrBadHTML, n, 0, `text inside an attribute value, comment or special element of a noscript element ends with the beginning of "</noscript"`),
+			}
+		}
+		if c.state == stateSpecialElementBody && c1.state == stateSpecialElementBody && i1 == len(s) {
+			// e.g. `<iframe></ifr{{.X}}>`: what follows may complete the end tag. In an iframe
+			// element, whose text is not rewritten, a value may contribute the "/" as well.
+			min := 2
+			if c.element.name == "iframe" {
+				min = 1
+			}
+			if endsWithPrefixOf(s[i:i1], "</"+c.element.name, min) {
+				return context{
+					state: stateError,
+					err:   errorf(ErrBadHTML, n, 0, "text inside a %q element ends with the beginning of its end tag", c.element.name),
+				}
 			}
 		}
 		sc, err := sanitizationContextForElementContent(c.element.name)
